@@ -926,6 +926,24 @@ pub fn run(ctx: &RunCtx) -> i32 {
             }
         }
     }
+    // every millisecond of the minute around the epoch, and of a window around 10^9 s and 2^31 s: small magnitudes
+    // are where decimal texts made with binary floating point go wrong
+    {
+        let windows: Vec<(i128, i128)> = vec![(-60_000, 60_000), (1_000_000_000_000 - 2000, 1_000_000_000_000 + 2000), (2_147_483_648_000 - 2000, 2_147_483_648_000 + 2000), (-2_208_988_800_000 - 1000, -2_208_988_800_000 + 1000)];
+        let wref = &windows;
+        let rep = par_run(ctx.workers, 64, |j, r| {
+            for (lo, hi) in wref {
+                let mut ms = *lo + j as i128;
+                while ms <= *hi {
+                    for fmt in [TimestampFormat::EpochSeconds, TimestampFormat::DateTime] {
+                        check_format_parse(r, ms, fmt);
+                    }
+                    ms += 64;
+                }
+            }
+        });
+        total.merge(rep);
+    }
     finish(ctx, &meta, &total)
 }
 
